@@ -27,7 +27,8 @@ WARN_OK = {"PackNotReferenced", "HotDataPack", "HotPackNotReferenced"}
 def run(ctx, rep):
     prog = ctx.prog
     for r, tx in (("C05.a", "severity table of CheckError constructions"), ("C05.b", "check_pack verifies every layer"),
-                  ("C05.c", "read-data covers the packs the tree walk uses"), ("C05.d", "index vs listing comparison has error arms")):
+                  ("C05.c", "read-data covers the packs the tree walk uses"), ("C05.d", "index vs listing comparison has error arms"),
+                  ("C05.e", "check's lookup index is fed like restore's (unmarked packs only)"), ("C05.f", "unreadable repository files are not skipped")):
         rep.rule(r, tx)
     variants = prog.variants("commands::check::CheckError")
     rep.floor("C05.a", "CheckError variants", len(variants), 30)
@@ -154,6 +155,10 @@ def run(ctx, rep):
                 if "pack" in sl["fields"]:
                     ins += 1
     rep.check("C05.c", "used-packs-recorded", gets >= 2 and ins >= gets, where=CT.loc(), what=f"check_trees records entry.pack for every index lookup it resolves ({gets} lookups, {ins} pack insertions)")
+    # ---- C05.e: check looks blobs up in the same index contents as restore does; unreadable files are errors ------
+    from rules import C17, errprop
+    C17.check_extend_sites(ctx, rep, "C05.e")
+    errprop.run_iter(ctx, rep, "C05.f")
     # ---- C05.d -------------------------------------------------------------------------------------
     for fn, need in (("check_packs_list", {"NoPack", "PackSizeMismatchIndex"}), ("check_packs_list_hot", {"NoHotPack", "HotPackSizeMismatchIndex"})):
         F = prog.find1(rf"^rustic_core::commands::check::{fn}$")
